@@ -70,7 +70,7 @@ def force_sample_recording(props=None):
         obl.append(Obl('C17/%s/never_raises' % U, ('C17', 'C04'), s, z3.BoolVal(oc[0] == 'return'), oc))
         ign = truthy(s.rd(old['params'], 'ignore_enforced_sampling'))
         want = z3.Or(truthy(old['force']), z3.And(old['active'] != NONE, z3.Not(ign)))
-        obl.append(Obl('C17/%s/forces_iff_recording_and_not_ignored' % U, 'C17', s, truthy(s.rd(selfv, '_force_sample')) == want, oc))
+        obl.append(Obl('C17/%s/forces_iff_recording_and_not_ignored' % U, ('C17', 'C09'), s, truthy(s.rd(selfv, '_force_sample')) == want, oc))
         obl.append(Obl('C17/%s/frame' % U, ('C17', 'C09'), s, z3.And(unchanged(s, selfv, [f for f in ALLF if f != '_force_sample']), no_cassette_events(s)), oc))
     return [info], obl, {'paths': len(paths), 'forks': ex.forks}
 
